@@ -137,4 +137,11 @@ def obligations(tier):
                         'samples': [(1, 2048, 2049)], 'stubs': ['M_struct', 'M_out', 'M_image', 'M_rand', 'constant clock']})
     from vf.props import packing
     obs += packing.obligations_for('C01.d', tier)
+    for nf in ((44,) if tier == 'quick' else (44, 43, 90)):
+        obs.append({'name': 'C01.d/udf_fid_packing/nfill%d' % nf, 'engine': 'chx', 'module': 'vf.props.C10_h', 'func': 'fid_packing', 'params': {'nfill': nf},
+                    'cond_timeout': 900, 'path_timeout': 200,
+                    'bounds': 'UDF root directory with %d concrete names + 3 identifiers with symbolic name lengths in [1,254], added then removed' % nf,
+                    'functions': ['UDFFileEntry.add_file_ident_desc', 'UDFFileEntry.remove_file_ident_desc_by_name', 'UDFFileIdentifierDescriptor.length',
+                                  'PyCdlib._udf_assign_extents', 'PyCdlib._finish_add', 'PyCdlib._finish_remove', 'PyCdlib.rm_file'],
+                    'samples': [(30, 4, 4), (31, 5, 9)], 'stubs': ['names modelled by their length (Span)']})
     return obs
